@@ -60,8 +60,15 @@ ASSUME_ENGINE = [
 def engine_jobs(prop, tier, seed, avoid, spec=None, extra_flags=None, label_prefix=""):
     spec = spec or ENGINE[prop]
     jobs = []
+    scale = float(os.environ.get("VERIF_SCALE", "1"))          # internal: mutation sweeps run reduced volumes
+    only = os.environ.get("VERIF_VARIANTS")                      # internal: restrict build variants
     for vi, (variant, cases) in enumerate(spec[tier].items()):
+        if only and variant not in only.split(","):
+            continue
+        cases = max(16, int(cases * scale))
         nshard = NSHARD if cases >= 4 * NSHARD else max(1, cases // 4)
+        if os.environ.get("VERIF_NSHARD"):
+            nshard = int(os.environ["VERIF_NSHARD"])
         vseed = seed * 1000003 + vi * 7919
         for sh in range(nshard):
             args = ["-prop", prop, "-profile", spec["profile"], "-seed", str(vseed), "-shard", str(sh), "-nshards", str(nshard),
